@@ -975,10 +975,30 @@ impl Visitor<Diagnostic> for LibraryRenderer {
         self.write_ws("(");
 
         if let Some(qualifier) = &node.qualifier {
-            self.write_ws(qualifier.to_string().as_str());
-            if !node.indicators.is_empty() {
+            use dsl::sfc::ActionQualifier;
+            // The qualifier as the parser reads it; a timed qualifier is followed by its time
+            let (keyword, time) = match qualifier {
+                ActionQualifier::N => ("N", None),
+                ActionQualifier::R => ("R", None),
+                ActionQualifier::S => ("S", None),
+                ActionQualifier::L => ("L", None),
+                ActionQualifier::D => ("D", None),
+                ActionQualifier::P => ("P", None),
+                ActionQualifier::SD(time) => ("SD", Some(time)),
+                ActionQualifier::DS(time) => ("DS", Some(time)),
+                ActionQualifier::SL(time) => ("SL", Some(time)),
+                ActionQualifier::PR(time) => ("P1", Some(time)),
+                ActionQualifier::PF(time) => ("P0", Some(time)),
+            };
+            self.write_ws(keyword);
+            if let Some(time) = time {
                 self.write_ws(",");
+                self.visit_action_time_kind(time)?;
             }
+        }
+        // The indicators follow a comma, with or without a qualifier before it
+        if !node.indicators.is_empty() {
+            self.write_ws(",");
         }
 
         visit_comma_separated!(self, node.indicators.iter(), Id);
